@@ -27,6 +27,7 @@ class UnbinnedCostFunction_NegLogLikelihood(CostFunction):
         self._formatter.latex_name = "-2\\ln\\mathcal{L}"
         self._formatter.name = "nll"
         self._formatter.description = "negative log-likelihood"
+        self._kafe2go_identifier = "nll"
 
     # model is the pdf already evaluated at all x-points with the given params, as far as I understand.
     # so there's only need to evaluate the model in the nll calculations?
